@@ -357,10 +357,113 @@ def fan_out(chk):
                     meta={"replay": rep})
 
 
+def fan_out_dispatch(chk):
+    """The per-atom dispatch of the radial grid (one grid / list by atom index / dict by atomic number / None = the element's default grid) and, for
+    from_preset, of the preset name (str / list / dict) in the three convenience constructors, three atoms: atom a's atomic constructor receives the
+    radial grid and preset that belong to atom a.  (The plain variant - one grid, one name - is fan_out above.)"""
+    eng = chk.eng
+    ZC = [8, 1, 6]                    # concrete atomic numbers, listed in an order different from their numerical order
+    rec = {"atom": [], "mol": [], "default": []}
+
+    def atom_contract(kind):
+        def c(eng_, f, args, kwargs):
+            args = [x for k_, x in enumerate(args) if not (k_ == 0 and isinstance(x, I.ClassRef))]
+            rec["atom"].append((kind, list(args), dict(kwargs)))
+            o = I.Obj(eng_.get_class("grid.atomgrid", "AtomGrid"))
+            o.fields["_made"] = len(rec["atom"]) - 1
+            return o
+        return c
+
+    def mol_contract(eng_, f, args, kwargs):
+        rec["mol"].append((list(args), dict(kwargs)))
+        o = I.Obj(eng_.get_class(MOD, "MolGrid"))
+        o.fields["_made"] = True
+        return o
+
+    def default_contract(eng_, f, args, kwargs):
+        z = M.unwrap(args[0])
+        o = I.Obj(eng_.get_class("grid.basegrid", "OneDGrid"))
+        o.fields["_default_for"] = z
+        rec["default"].append(z)
+        return o
+
+    def mk_rg(eng_, tag):
+        rg = I.Obj(eng_.get_class("grid.basegrid", "OneDGrid"))
+        rg.fields.update(_points=I.Arr((z3.Int("nr"),), lambda i: z3.Function("r", IS, RS)(T.zi(i)), "real"),
+                         _weights=I.Arr((z3.Int("nr"),), lambda i: z3.Function("wr", IS, RS)(T.zi(i)), "real"), _domain=None, _kdtree=None, _tag=tag)
+        return rg
+
+    def run(eng_, which, rkind, pkind):
+        for v_ in rec.values():
+            v_.clear()
+        cc = eng_.callee_contracts
+        cc["grid.atomgrid.AtomGrid"] = atom_contract("init")
+        cc["grid.atomgrid.AtomGrid.from_preset"] = atom_contract("from_preset")
+        cc["grid.atomgrid.AtomGrid.from_pruned"] = atom_contract("from_pruned")
+        cc[f"{MOD}.MolGrid"] = mol_contract
+        cc[f"{MOD}._generate_default_rgrid"] = default_contract
+        try:
+            cls = eng_.get_class(MOD, "MolGrid")
+            fr = I.Frame(eng_, cls.module, I.Env(), cls, None, "harness")
+            atnums = M.array_from_seq(eng_, list(ZC))
+            atcoords = I.Arr((3, 3), lambda a, c: z3.Function("R", IS, IS, RS)(T.zi(a), T.zi(c)), "real")
+            rgs = [mk_rg(eng_, f"for-atom-{a}") for a in range(3)]
+            rg = {"one": rgs[0], "list": list(rgs), "dict": {ZC[a]: rgs[a] for a in range(3)}, "none": None}[rkind]
+            names = ["coarse", "fine", "medium"]
+            preset = {"str": "fine", "list": list(names), "dict": {ZC[a]: names[a] for a in range(3)}}[pkind]
+            aim = I.Opaque("aim", call=True)
+            if which == "from_size":
+                res = eng_.call(fr.getattr(cls, "from_size"), [atnums, atcoords, 110], {"rgrid": rg, "aim_weights": aim, "store": True})
+            elif which == "from_preset":
+                res = eng_.call(fr.getattr(cls, "from_preset"), [atnums, atcoords, preset], {"rgrid": rg, "aim_weights": aim, "store": True})
+            else:
+                res = eng_.call(fr.getattr(cls, "from_pruned"), [atnums, atcoords, [z3.Real("rad0"), z3.Real("rad1"), z3.Real("rad2")], [["rs0"], ["rs1"], ["rs2"]]],
+                                {"d_sectors": [["ds0"], ["ds1"], ["ds2"]], "rgrid": rg, "aim_weights": aim, "store": True})
+            return res, list(rec["atom"]), list(rec["mol"]), rgs, names
+        finally:
+            for k in ("grid.atomgrid.AtomGrid", "grid.atomgrid.AtomGrid.from_preset", "grid.atomgrid.AtomGrid.from_pruned", f"{MOD}.MolGrid", f"{MOD}._generate_default_rgrid"):
+                cc.pop(k, None)
+
+    variants = [("from_preset", r_, p_) for r_ in ("one", "list", "dict", "none") for p_ in ("str", "list", "dict") if (r_, p_) != ("one", "str")]
+    variants += [("from_size", "none", "str"), ("from_pruned", "list", "str"), ("from_pruned", "dict", "str"), ("from_pruned", "none", "str")]
+    for which, rkind, pkind in variants:
+        fq = f"{MOD}.MolGrid.{which}"
+        rep = {"what": "fanout", "ctor": which, "rgrid": rkind, "preset": pkind}
+        tag = f"{which}/rgrid-{rkind}" + (f"/preset-{pkind}" if which == "from_preset" else "")
+        outs = chk.explore(f"{tag}/three-atoms", lambda e, which=which, rkind=rkind, pkind=pkind: run(e, which, rkind, pkind), func=fq)
+        rets = [o for o in outs if o.kind == "return"]
+        chk.add(f"{tag}/post/returns-on-every-path", [], z3.BoolVal(bool(rets) and len(rets) == len(outs)), func=fq,
+                meta={"replay": rep, "paths": str([(o.kind, o.exc, o.note) for o in outs])})
+        for oi, o in enumerate(rets):
+            res, atoms, mols, rgs, names = o.value
+            ok = len(atoms) == 3 and len(mols) == 1
+            goals = []
+            if ok:
+                for a, (kind, args, kw) in enumerate(atoms):
+                    got = kw.get("rgrid") if kind == "from_preset" else (args[0] if args else None)
+                    if rkind == "none":
+                        okr = isinstance(got, I.Obj) and "_default_for" in got.fields
+                        if okr:
+                            z = got.fields["_default_for"]
+                            goals.append(T.zi(z) == ZC[a] if T.is_sym(z) else z3.BoolVal(int(z) == ZC[a]))
+                    else:
+                        okr = got is (rgs[0] if rkind == "one" else rgs[a])
+                    ok = ok and bool(okr)
+                    if which == "from_preset":
+                        ok = ok and kw.get("preset") == ("fine" if pkind == "str" else names[a])
+                        zz = M.unwrap(kw.get("atnum"))
+                        goals.append(T.zi(zz) == ZC[a] if T.is_sym(zz) else z3.BoolVal(zz is not None and int(zz) == ZC[a]))
+                lst = mols[0][0][1] if len(mols[0][0]) > 1 else None
+                ok = ok and isinstance(lst, list) and len(lst) == 3 and all(isinstance(x, I.Obj) and x.fields.get("_made") == i for i, x in enumerate(lst))
+            chk.add(f"{tag}/post/atom-a-gets-the-radial-grid-and-preset-of-atom-a" + ("" if len(rets) == 1 else f"@{oi}"), list(o.pc),
+                    z3.And(z3.BoolVal(bool(ok)), *goals), func=fq, meta={"replay": rep})
+
+
 def build(chk):
     constructor(chk)
     atomic_grid_access(chk)
     fan_out(chk)
+    fan_out_dispatch(chk)
 
 
 def main(tier="quick", seed=0, bounded=True, proof=True):
